@@ -142,7 +142,7 @@ def _gen_cases(ctx):
           yield dict(kind='sharded', workers=2, shards=2, n=3, pipe='p0', plans=[_strip(p) for p in plans],
                      threshold=(1 if (a[1] + b[1]) % 2 else 3))
   # --- sharded: random plans
-  for _ in range(250 if quick else 8000):
+  for _ in range(250 if quick else 3500):
     w = rng.choice([1, 2, 2, 3, 3])
     s = rng.choice([1, 2, 2, 3, 4])
     n = rng.randrange(max(1, s - 1), s + 4)
@@ -170,7 +170,7 @@ def _gen_cases(ctx):
           plans = [[] for _ in range(w)]
           plans[wi] = ['ok'] * idx + [f]
           yield dict(kind='ac', workers=w, tasks=t, plans=plans, bad=[], ignore=False)
-  for _ in range(80 if quick else 5000):
+  for _ in range(80 if quick else 2200):
     w = rng.choice([1, 2, 3])
     t = rng.randrange(1, 5)
     plans = [['ok'] * 5 for _ in range(w)]
@@ -202,7 +202,7 @@ def _gen_cases(ctx):
           yield dict(kind='gen', workers=w, tasks=[dict(k=(idx + j) % 2, rc=X.FALSY[(idx + wi + j) % len(X.FALSY)])
                                                    for j in range(nt)],
                      plans=plans, threshold=(0 if (idx + len(f)) % 4 == 0 else 3))
-  for _ in range(60 if quick else 1200):
+  for _ in range(60 if quick else 600):
     w = rng.choice([1, 2, 2, 3])
     nt = rng.randrange(1, 5)
     plans = [['ok'] * 6 for _ in range(w)]
